@@ -627,6 +627,28 @@ def s_case(ctx, rng, case, sc, deep=False):
             fails.append((sig('line-density-at-node', case), 'node %d z=%r: line density %r, documented rate/v*exp(-cumtrapz(S)/v) = %r'
                           % (k, nodes[k], sc.knots[k], float(expect_nodes[k]))))
             break
+    # ---- S2b (round 6): listing order of the composition.  The same description with the species listed in another
+    #      order (reversed / rotated) gives the same attenuation table (Props/C04Species.lean: beamStopping_perm,
+    #      calcAttenuation_species_order_independent, full_density_species_order_independent).  A fresh scene is built
+    #      for the permuted description; only the implementation is observed.
+    if len(case['species']) >= 2:
+        case2 = json.loads(json.dumps(case))
+        sp = case2['species']
+        case2['species'] = sp[::-1] if (n % 2 == 0 or len(sp) == 2) else sp[1:] + sp[:1]
+        sc2 = build(case2)
+        st2, v2 = call(sc2.beam.density, 0.0, 0.0, 0.0)
+        ctx.count('S:species-order')
+        if st2 != 'ok':
+            fails.append((sig('species-order', case), 'Beam.density raised for the reordered composition: %r' % (v2,)))
+        else:
+            for k in range(n):
+                stk, vk = call(sc2.att._density, nodes[k])
+                if stk != 'ok' or not close(vk, sc.knots[k], 1e-9, 1e-300):
+                    fails.append((sig('species-order', case),
+                                  'node %d z=%r: line density %r with species %r, %r with the same species listed as %r'
+                                  % (k, nodes[k], sc.knots[k], [(s_['element'], s_['charge']) for s_ in case['species']],
+                                     vk, [(s_['element'], s_['charge']) for s_ in case2['species']])))
+                    break
     # ---- S1: conservation against the exact integral (smooth profiles: with the trapezoid / interpolation error bounds)
     if smooth(case):
         I, M2, M1, Smax = fine_integral(case, sc, nodes, v)
